@@ -86,6 +86,7 @@ pub fn pos_history(_args: &[String]) -> String {
                 let pb = ProgressBar::hidden(); pb.set_length(10); pb
             };
             let (mut pos, mut len): (u64, Option<u64>) = (0, Some(10));
+            let mut fin = false;
             let mut hist: Vec<&str> = vec![];
             for op in [a, b, c, d] {
                 match op {
@@ -101,12 +102,16 @@ pub fn pos_history(_args: &[String]) -> String {
                     9 => { pb.inc_length(M); len = len.map(|l| l.saturating_add(M)); }
                     10 => { pb.dec_length(4); len = len.map(|l| l.saturating_sub(4)); }
                     11 => { pb.unset_length(); len = None; }
-                    12 => { pb.reset(); pos = 0; }
-                    13 => { pb.finish(); if let Some(l) = len { pos = l; } }
-                    _ => { pb.abandon(); }
+                    12 => { pb.reset(); pos = 0; fin = false; }
+                    13 => { pb.finish(); if let Some(l) = len { pos = l; } fin = true; }
+                    _ => { pb.abandon(); fin = true; }
                 }
                 hist.push(names[op]);
                 tried += 1;
+                if pb.is_finished() != fin {
+                    return format!("{{\"found\": true, \"clause\": \"C07/C04 is_finished() is true from finish / abandon until the next reset\", \"input\": {{\"visible\": {}, \"history\": {}, \"expected\": \"is_finished {}\", \"got\": \"is_finished {}\"}}, \"rerun\": \"replay pos_history\"}}",
+                        visible, crate::jlist(&hist), fin, pb.is_finished());
+                }
                 if pb.position() != pos || pb.length() != len {
                     return format!("{{\"found\": true, \"clause\": \"C07 position() is defined by the history of inc/dec/set_position/reset/finish (wrapping), length() by set_length/inc_length/dec_length/unset_length (saturating)\", \"input\": {{\"visible\": {}, \"history\": {}, \"expected\": \"position {} length {:?}\", \"got\": \"position {} length {:?}\"}}, \"rerun\": \"replay pos_history\"}}",
                         visible, crate::jlist(&hist), pos, len, pb.position(), pb.length());
@@ -645,6 +650,29 @@ pub fn time_laws(_args: &[String]) -> String {
         let t0 = std::time::Instant::now();
         for _ in 0..5 { std::thread::sleep(Duration::from_millis(4)); pb.inc(200); }
         pb.abandon();
+        tried += 1;
+        if pb.eta() != Duration::ZERO {
+            return format!("{{\"found\": true, \"clause\": \"C09 eta is zero once the bar is finished, also for a bar abandoned part-way\", \"input\": {{\"history\": \"length 1000000; 5 x (sleep 4 ms; inc(200)); abandon\", \"eta_ms\": {}}}, \"rerun\": \"replay time_laws\"}}", pb.eta().as_millis());
+        }
+        {
+            let q = ProgressBar::hidden();
+            q.set_length(100);
+            for _ in 0..3 { std::thread::sleep(Duration::from_millis(3)); q.inc(10); }
+            q.finish();
+            q.inc_length(50);
+            tried += 1;
+            if q.eta() != Duration::ZERO {
+                return format!("{{\"found\": true, \"clause\": \"C09 eta is zero once the bar is finished, also when its length grows afterwards\", \"input\": {{\"history\": \"length 100; 3 x (sleep 3 ms; inc(10)); finish; inc_length(50)\", \"eta_ms\": {}}}, \"rerun\": \"replay time_laws\"}}", q.eta().as_millis());
+            }
+            let q = ProgressBar::hidden();
+            q.set_length(100);
+            for _ in 0..3 { std::thread::sleep(Duration::from_millis(3)); q.inc(10); }
+            q.abandon_with_message("stopped");
+            tried += 1;
+            if q.eta() != Duration::ZERO || q.duration() != Duration::ZERO {
+                return format!("{{\"found\": true, \"clause\": \"C09 eta and duration are zero once the bar is finished (abandon_with_message part-way)\", \"input\": {{\"history\": \"length 100; 3 x (sleep 3 ms; inc(10)); abandon_with_message\", \"eta_ms\": {}, \"duration_ms\": {}}}, \"rerun\": \"replay time_laws\"}}", q.eta().as_millis(), q.duration().as_millis());
+            }
+        }
         let r = pb.per_sec();
         let upper = 1000.0 / 0.020;                       // 1000 steps in at least 20 ms
         let lower = 1000.0 / (t0.elapsed().as_secs_f64() + 0.001) / 2.0;
